@@ -331,6 +331,67 @@ def typed_integer_arm(text, feats):
     raise AnchorLost("real(): no TypedInteger arm")
 
 
+SYN_RS = "src/syntax/src/literals.rs"
+SYN_MODEL = """
+// model for the sign handling of the literal PARSERS (src/syntax/src/literals.rs): a token parser is named by the function that
+// implements it; `plus` yields a token of kind Plus, `dash` one of kind Dash (their definitions: leaf!{plus, "+", TokenKind::Plus} ..);
+// nom's opt / alt behave as documented (opt never fails; alt takes the first alternative that succeeds)
+pub struct Input { pub id: u64 }
+#[derive(PartialEq, Eq, Structural)]
+pub enum TokenKind { Plus, Dash, Other }
+pub struct Token { pub kind: TokenKind, pub id: u64 }
+#[derive(PartialEq, Eq)]
+pub enum A { Plus, Dash, Other(u64) }
+pub uninterp spec fn pt(a: A, i: Input) -> Option<(Input, Token)>;
+pub open spec fn kinds_ok(a: A, t: Token) -> bool { (a == A::Plus ==> t.kind == TokenKind::Plus) && (a == A::Dash ==> t.kind == TokenKind::Dash) }
+pub open spec fn opt_spec(a: A, i: Input) -> (Input, Option<Token>) { match pt(a, i) { Some((i1, t)) => (i1, Some(t)), None => (i, None) } }
+#[verifier::external_body]
+pub fn opt_of(a: A, i: Input) -> (r: Option<(Input, Option<Token>)>)
+  ensures r == Some(opt_spec(a, i)), pt(a, i) matches Some((i1, t)) ==> kinds_ok(a, t) && ends(a, i, i1),
+{ unimplemented!() }
+#[verifier::external_body]
+pub fn opt_alt_of_2(a0: A, a1: A, i: Input) -> (r: Option<(Input, Option<Token>)>)
+  ensures r == Some(match pt(a0, i) { Some((i1, t)) => (i1, Some(t)), None => opt_spec(a1, i) }),
+    pt(a0, i) matches Some((i1, t)) ==> kinds_ok(a0, t) && ends(a0, i, i1), pt(a1, i) matches Some((i1, t)) ==> kinds_ok(a1, t) && ends(a1, i, i1),
+{ unimplemented!() }
+// a parse of `a` starting somewhere ends exactly at k
+pub open spec fn ends(a: A, j: Input, k: Input) -> bool { pt(a, j) is Some && pt(a, j).unwrap().0 == k }
+pub open spec fn ended_at(a: A, k: Input) -> bool { exists|j: Input| ends(a, j, k) }
+pub broadcast proof fn lemma_ended(a: A, j: Input, k: Input) requires #[trigger] ends(a, j, k), ensures ended_at(a, k), { }
+"""
+
+
+def exponent_sign_fragment(syn):
+    """(F) of `scientific_literal` (src/syntax/src/literals.rs): the statements between the `e`/`E` tag and the exponent digits (those that
+    apply `opt(..)` to a sign parser) and the statement `let ex_sign = ..;`, verbatim; `opt(N)(input)?` -> `opt_of(A::N, input)?`,
+    `opt(alt((N1, N2)))(input)?` -> `opt_alt_of_2(A::N1, A::N2, input)?`; the fragment returns `(input, ex_sign)`"""
+    sig, body = extract_fn(syn, "scientific_literal")
+    sts = [strip_comments(x).strip() for x in vlib.split_statements(body)]
+    ie = [k for k, x in enumerate(sts) if re.search(r"alt\(\(\s*tag\(\"e\"\)\s*,\s*tag\(\"E\"\)\s*\)\)", x)]
+    isg = [k for k, x in enumerate(sts) if re.match(r"let\s+ex_sign\b", x)]
+    if len(ie) != 1 or len(isg) != 1 or isg[0] < ie[0]:
+        raise AnchorLost("scientific_literal: the `e`/`E` tag statement or `let ex_sign` not found")
+    sign_sts = [x for x in sts[ie[0] + 1:isg[0]] if re.search(r"\bopt\(", x)]
+    if not sign_sts:
+        raise AnchorLost("scientific_literal: no optional sign parser between the exponent marker and the exponent digits")
+    def atom(n):
+        return {"plus": "A::Plus", "dash": "A::Dash"}.get(n, "A::Other(%d)" % (sum(map(ord, n)) % 1000))
+    out = []
+    for x in sign_sts:
+        x2, n = re.subn(r"\bopt\(\s*alt\(\(\s*(\w+)\s*,\s*(\w+)\s*\)\)\s*\)\s*\(\s*input\s*\)\s*\?", lambda m: "opt_alt_of_2(%s, %s, input)?" % (atom(m.group(1)), atom(m.group(2))), x)
+        x2, n2 = re.subn(r"\bopt\(\s*(\w+)\s*\)\s*\(\s*input\s*\)\s*\?", lambda m: "opt_of(%s, input)?" % atom(m.group(1)), x2)
+        if n + n2 != 1 or re.search(r"\b(opt|alt|tag)\(", x2):
+            raise AnchorLost("scientific_literal: sign statement outside the rules: " + x)
+        out.append(x2)
+    sg = sts[isg[0]]
+    if re.search(r"\binput\b|\?", sg):
+        raise AnchorLost("scientific_literal: `let ex_sign` is no longer a pure computation")
+    return ("fn exponent_sign(input: Input) -> (r: Option<(Input, bool)>)\n"
+            "  // the flag handed to the evaluator as 'negative exponent' is set exactly when the sign that was consumed is a minus\n"
+            "  ensures (match r { Some((i2, neg)) => (neg ==> ended_at(A::Dash, i2)) && (!neg ==> (i2 == input || ended_at(A::Plus, i2))), None => true }),\n"
+            "{\n  broadcast use lemma_ended;\n  %s\n  %s\n  Some((input, ex_sign))\n}\n" % ("\n  ".join(out), sg))
+
+
 def plan_units(plan):
     text = read_repo(LIT_RS)
     nodes = read_repo(NODES_RS)
@@ -355,6 +416,7 @@ def plan_units(plan):
         ("c13_complex", lambda: complex_(text), {"complex": "C13.verus.complex.re_im_parts"}),
         ("c13_route", lambda: routing(text, nodes, feats), {"real_route": "C13.verus.real.routing_table"}),
         ("c13_typed", lambda: [TYPED_MODEL, typed_integer_arm(text, feats)], {"typed_integer_arm": "C13.verus.real.suffixed_integer_clamps"}),
+        ("c13_syn_sign", lambda: [SYN_MODEL, exponent_sign_fragment(read_repo(SYN_RS))], {"exponent_sign": "C13.verus.syntax.scientific_literal.exponent_sign"}),
     ]
     what = {
         "dec": "`0d..` evaluates to I64(sum of digit * 10^i); accepted iff decimal digits that fit i64", "hex": "`0x..` evaluates to I64(value in radix 16)",
@@ -365,6 +427,7 @@ def plan_units(plan):
         "negated": "`-lit` has the kind of `lit` and the negated value; non-numeric operands are rejected",
         "complex": "real and imaginary parts go to re and im (re = 0 when absent)",
         "typed_integer_arm": "a suffixed integer literal is its digits read as an unsuffixed integer (double) and then converted to the suffix kind, i.e. by the clamping float -> kind conversion of C12, never by a wrapping integer cast",
+        "exponent_sign": "the parser of a scientific literal sets the negative-exponent flag exactly when the sign it consumed between the exponent marker and the exponent digits is a minus (an explicit plus, or no sign, leaves it unset)",
         "real_route": "every literal form is evaluated by its own evaluator"}
     for uname, build, fns in groups:
         try:
@@ -374,9 +437,9 @@ def plan_units(plan):
                 plan.anchor_errors.append((on, str(e)))
             continue
         can = "canary_" + uname
-        utext = vlib.verus_file((items if uname == "c13_typed" else aliases + [model] + items) + [verus_canary(can, "x: u64", [])])
+        utext = vlib.verus_file((items if uname in ("c13_typed", "c13_syn_sign") else aliases + [model] + items) + [verus_canary(can, "x: u64", [])])
         for fn, on in fns.items():
-            plan.ob(on, "verus", "proved", functions=["src/interpreter/src/literals.rs: %s()" % fn.replace("real_route", "real").replace("typed_integer_arm", "real")], what=what[fn])
+            plan.ob(on, "verus", "proved", functions=["src/interpreter/src/literals.rs: %s()" % fn.replace("real_route", "real").replace("typed_integer_arm", "real").replace("exponent_sign", "scientific_literal [src/syntax/src/literals.rs]")], what=what[fn])
         plan.verus.append(VerusUnit(uname, utext, fns, [can]))
     plan.dropped += [
         "(X) literal evaluators extracted verbatim and rewritten by rules L1-L9 of units/vC13.py: chars.iter().collect() -> collect_string; i64::from_str_radix(..).unwrap() / str::parse(..).unwrap() -> model calls whose failure is an early None (a panic is an error, Interpreter::interpret converts it); format! -> fmt_dot / fmt_sci; Ref<T> = identity; doubles opaque (f64 -> F, unary minus -> fneg, x * 10f64.powf(e) -> fmul(x, fpow10(e))); panic!(..) -> return None; comments dropped",
